@@ -464,6 +464,9 @@ func clrIterate(tr *clrTrial, r *rng.R, what string, exact bool, mk func(*util.R
 	if cl == clrOdd {
 		if strings.Contains(err.Error(), "reader released") {
 			tr.report(name+":close-race:internal-error:reader-released", fmt.Sprintf("%s: Error() = %q instead of ErrClosed", what, err))
+		} else if strings.Contains(err.Error(), "corruption on index-block") {
+			// the recycled index block of a reader released by force, read as garbage
+			tr.report(name+":close-race:internal-error:index-block-corruption", fmt.Sprintf("%s: Error() = %q on an undamaged table", what, err))
 		} else {
 			tr.report(name+":close-race:odd-error", fmt.Sprintf("%s: Error() = %q", what, err))
 		}
@@ -477,8 +480,12 @@ func clrIterate(tr *clrTrial, r *rng.R, what string, exact bool, mk func(*util.R
 	return cl == clrClosed
 }
 
-func clrOpGet(tr *clrTrial, r *rng.R) bool { return clrGetOn(tr, r, "DB.Get", tr.db, tr.readOnlyClients) }
-func clrOpHas(tr *clrTrial, r *rng.R) bool { return clrHasOn(tr, r, "DB.Has", tr.db, tr.readOnlyClients) }
+func clrOpGet(tr *clrTrial, r *rng.R) bool {
+	return clrGetOn(tr, r, "DB.Get", tr.db, tr.readOnlyClients)
+}
+func clrOpHas(tr *clrTrial, r *rng.R) bool {
+	return clrHasOn(tr, r, "DB.Has", tr.db, tr.readOnlyClients)
+}
 
 func clrOpPut(tr *clrTrial, r *rng.R) bool {
 	k := clrKey(r.Intn(tr.nkeys))
@@ -838,8 +845,8 @@ func clrRunTrial(cfg clrCfg, watchdog time.Duration) (tr *clrTrial, hang bool, e
 			time.Sleep(time.Duration(cfg.CloseAtUs) * time.Microsecond)
 			tr.closeSoon.Store(true)
 			// iterators made before the call of Close are released first
-			crDeadline := time.Now().Add(150 * time.Microsecond)
-			for time.Now().Before(crDeadline) {
+			spinUntil := time.Now().Add(150 * time.Microsecond)
+			for time.Now().Before(spinUntil) {
 				runtime.Gosched()
 			}
 			clrWait(func() bool { return tr.itersInUse.Load() == 0 }, 2*time.Second)
@@ -1016,7 +1023,9 @@ func clrClass(sig string) string {
 		return "D44 reader-released"
 	case strings.Contains(sig, "made-up-answer"):
 		return "D45 made-up-answer"
-	case strings.Contains(sig, ":close-race:panic:") && (strings.Contains(sig, "block") || strings.Contains(sig, "Iter")):
+	case strings.Contains(sig, "journal.(*Writer).Next"):
+		return "D42 readonly-write-takes-lock"
+	case strings.Contains(sig, "index-block-corruption"), strings.Contains(sig, ":close-race:panic:") && (strings.Contains(sig, "block") || strings.Contains(sig, "Iter")):
 		return "D46 iterator-panic-index-block"
 	case strings.Contains(sig, "hang"):
 		return "hang"
@@ -1035,9 +1044,9 @@ func runCloseRaces(c *Ctx, budget time.Duration, hangsOnly bool) {
 	leveldb.VerifYield = clrYield
 	defer func() { leveldb.VerifYield = prevY }()
 	defer runtime.GOMAXPROCS(runtime.GOMAXPROCS(0))
-	watchdog := 4 * time.Second
+	watchdog := 6 * time.Second
 	if c.Thorough {
-		watchdog = 15 * time.Second
+		watchdog = 20 * time.Second
 	}
 	start := time.Now()
 	modes := []string{"plain", "setro", "openro"}
@@ -1045,14 +1054,21 @@ func runCloseRaces(c *Ctx, budget time.Duration, hangsOnly bool) {
 	seen := map[string]int{}   // signature → how often
 	stuck := 0
 	trials := 0
+	var waited time.Duration // spent waiting for watchdogs: not charged to the budget
+	left := func() bool { return time.Since(start)-waited < budget && stuck < 3 }
 	order := clrKindOrder
+	if hangsOnly {
+		// the hang that can be rescued (the leaked transaction is discarded afterwards) first, several times
+		order = []string{"tx-nodiscard", "tx-nodiscard", "tx-nodiscard", "tx-nodiscard", "tx-nodiscard", "tx-nodiscard",
+			"put", "delete", "writesmall", "writelarge", "tx", "setro", "close2", "mixed"}
+	}
 	if v := os.Getenv("VERIF_CLR_KINDS"); v != "" { // investigation: only these kinds
 		order = strings.Split(v, ",")
 	}
-	for round := 0; time.Since(start) < budget && stuck < 3; round++ {
+	for round := 0; left(); round++ {
 		for _, kind := range order {
 			for _, mode := range modes {
-				if time.Since(start) >= budget || stuck >= 3 {
+				if !left() {
 					break
 				}
 				if (kind == "tx" || kind == "tx-nodiscard") && mode != "plain" && round%4 != 0 {
@@ -1069,8 +1085,12 @@ func runCloseRaces(c *Ctx, budget time.Duration, hangsOnly bool) {
 				cfg := clrCfg{Kind: kind, Mode: mode, Seed: r.U64(), Clients: 3 + r.Intn(6), CloseAtUs: r.Intn(1500),
 					Procs: r.Pick(4, 16, 16, 8), Widen: !r.Chance(1, 5)}
 				runtime.GOMAXPROCS(cfg.Procs)
+				t0 := time.Now()
 				tr, hang, err := clrRunTrial(cfg, watchdog)
 				trials++
+				if d := time.Since(t0); d >= watchdog {
+					waited += d
+				}
 				if err != nil {
 					c.Res.Note("close race %+v: the setup failed (%v); trial skipped", cfg, err)
 					c.Res.Count("close-race", "setup-failed")
